@@ -125,6 +125,7 @@ func init() {
 		Rules: []Rule{
 			{"I1", "isolation: no function outside init writes (store, map update, copy/append target, callee that writes through the argument, unknown external callee) memory reachable from a package-level variable; no goroutines, unsafe or sync", ruleI1},
 			{"O1", "every returned offset of the offset-returning functions (f(buf, offs, ...) -> int, ...) is provably <= len(buf): linear guards, induction on the loop index, callee postconditions (greatest fixpoint), under the API precondition offs <= len(buf); 'offset + line-end length' returns are listed as assumed", ruleO1},
+			{"O3", "no non-error return of an offset-returning function carries an offset before the one passed in (offs - result <= 0 proved with the same prover: induction on the scan index, callee postconditions, guards); error verdicts are exempt because their offset may point back at the offending text", ruleO3},
 			{"G", "every index and slice expression outside init is discharged by a frozen proof rule: G2 index range (intervals, masks, enum guards) within a fixed array length; G3 dominated by a linear guard on the same SSA values (i < len(buf), i+1 < len(buf), N < len(arr) with no intervening write); the trusted accessor GetPField; named exceptions", ruleG},
 			{"P2", "PField.Set/Extend argument discipline: every end argument is provably <= len(buf); start <= end is proved or the start is a saved past index (assumed by index monotonicity); every store to a saved-index state field (soffs, pstart, pend, vstart, vend, msg.offs, PField.Offs) stores 0 or a value provably <= len(buf) - the inductive invariant behind the saved-index axiom of G/O1", ruleP2},
 			{"P1", "explicit panic calls outside init are confined to the two documented PField assertions", ruleP1},
